@@ -19,7 +19,7 @@ RULE = ('case = block of load/unload histories (exhaustive enumeration by index)
 ASSUMPTIONS = ['identifiers are computed from public attributes of the key objects (fingerprint, userids)']
 MIN_COUNTERS = {'quick': {'histories': 90000, 'steps_checked': 150000, 'selections_checked': 2000000, 'walk_steps': 300, 'multi_key_loads': 20},
                 'thorough': {'histories': 1000000}}
-BUDGET = {'quick': (260, 800), 'thorough': (2400, 3600)}
+BUDGET = {'quick': (600, 1500), 'thorough': (2400, 3600)}
 TECHNIQUE = 'runtime monitoring: bounded-exhaustive history enumeration + random walks against a shadow model; invariants checked after every step'
 MAX_JOBS = 16
 
